@@ -30,6 +30,7 @@ def Shape (s : State) (j : TxId) : Prop :=
       | .conflict => ∃ r, s.result j = some r ∧ Dirty (fun l => s.mv l j) r.locs
       | _ => ∃ r, s.result j = some r ∧ OkRes r ∧ Clean (fun l => s.mv l j) r
   | .reading _ _ _ => Dirty (fun l => s.mv l j) (oldLocs s j)
+  | .fetching _ _ _ _ => Dirty (fun l => s.mv l j) (oldLocs s j)
   | .publishing run todo _ => ∃ done : List Loc,
       (∀ l, l ∈ writeLocs run.writes ↔ l ∈ done ∨ l ∈ todo) ∧ (∀ l, l ∈ todo → l ∉ done) ∧
       todo.Nodup ∧
@@ -63,6 +64,7 @@ def EntryId (s : State) (j : TxId) : Prop :=
 def HistPhase (s : State) (j : TxId) : Prop :=
   match s.phase j with
   | .reading _ _ _ => s.hist j (s.inc j) = none
+  | .fetching _ _ _ _ => s.hist j (s.inc j) = none
   | .publishing run _ _ => s.hist j (s.inc j) = some run.writes
   | .removing run _ _ => s.hist j (s.inc j) = some run.writes
   | _ => True
@@ -110,6 +112,7 @@ theorem TxInv2.frame {s s' : State} {j : TxId} (h : TxInv2 s j)
         simp only [] at hs ⊢
         rw [hres, hcol]; exact hs
     | reading a b c => rw [hp] at hs; simp only [] at hs ⊢; rw [hcol, hold]; exact hs
+    | fetching a b c d => rw [hp] at hs; simp only [] at hs ⊢; rw [hcol, hold]; exact hs
     | publishing run todo nl =>
       rw [hp] at hs; simp only [] at hs ⊢
       simp only [hmv, hinc, hold]; exact hs
